@@ -4,6 +4,13 @@ A case is {"config", "init": [command lines], "events": [event lines]} in the pr
 lean/Drivers/C03.lean.  Model keys: user keys are the even numbers (0 -> 'a', 2 -> 'c', 4 -> 'e'; name =
 memhist.KEYNAMES[k]), reserved keys are odd: ':serializable:lock' <-> 1, ':tx_lock:<name of k>' <-> k + 3.
 
+Blocks: `enter <mode>` opens `async with cache.transaction(mode):` on a context object of its own, `enter <mode> dec`
+runs the block as the body of a function decorated with `@cache.transaction(mode)`, `enter <mode> @<i>` opens
+`async with T[i]:` on the SHARED context object number i (`T[i] = cache.transaction(mode)`, created at its first
+use and kept for the whole case: it can be entered again nested in itself, nested in other blocks, or sequentially),
+`enter <mode> dec@<i>` runs the block as the body of a function decorated with that same shared object (`@T[i]`;
+`__call__` builds a new context object per call, so for the model this is a block on an object of its own).
+
 Every event is executed through `Cache.transaction(mode)` / the `Cache` command facade on the transactional
 cache, and every command also on a second `Cache` whose `Memory` started as a copy of the first ("direct").
 After each event the raw backend stores are read without touching them (the outside observer).
@@ -42,22 +49,38 @@ def model_key(name: str):
     return None
 
 
+def block_kind(w: list[str]) -> str:
+    """'' (object of its own) | 'dec' (decorator form) | '@<i>' (shared object i) | 'dec@<i>' (decorator form, the
+    decorator being shared object i) of an `enter` line"""
+    return w[2] if len(w) > 2 else ""
+
+
+def shared_name(kind: str) -> str:
+    """'@<i>' for the kinds that use shared object i, else ''"""
+    return kind[kind.index("@"):] if "@" in kind else ""
+
+
 def normalize(events: list[str]) -> list[str]:
     """make an event list a well-formed program (used after shrinking): drop exits without a block and
-    explicit rollback/commit outside a block, close blocks left open with `exit ok`"""
-    out, depth = [], 0
+    explicit rollback/commit outside a block or directly inside a decorator-form block (no `Transaction`
+    handle there), give every shared object one mode (that of its first use), close blocks left open with
+    `exit ok`"""
+    out, stack, modes = [], [], {}
     for e in events:
         w = e.split()
         if w[0] == "enter":
-            depth += 1
+            kind = block_kind(w)
+            if shared_name(kind):
+                e = f"enter {modes.setdefault(shared_name(kind), w[1])} {kind}"
+            stack.append(kind)
         elif w[0] == "exit":
-            if depth == 0:
+            if not stack:
                 continue
-            depth -= 1
-        elif w[0] in ("rollback", "commitnow") and depth == 0:
+            stack.pop()
+        elif w[0] in ("rollback", "commitnow") and (not stack or stack[-1].startswith("dec")):
             continue
         out.append(e)
-    return out + ["exit ok"] * depth
+    return out + ["exit ok"] * len(stack)
 
 
 class TxRunner:
@@ -65,7 +88,11 @@ class TxRunner:
         self.config = config
         self.trace: list[tuple[str, str]] = []      # (line, canonical answer without the driver-only fields)
         self.stats: dict[str, int] = {}
-        self.txs: list = []
+        self.txs: list = []                         # `Transaction` handles of the open blocks (None: decorator form)
+        self.frames: list[str] = []                 # kinds of the open blocks, outermost first
+        self.objs: dict = {}                        # shared context objects '@i' -> TransactionContextDecorator
+        self.used_outer: set[str] = set()           # shared objects that have opened an outermost block
+        self.after_reentry = False                  # a re-entered block of the owning object has ended, outer block still open
 
     def bump(self, k: str):
         self.stats[k] = self.stats.get(k, 0) + 1
@@ -100,9 +127,42 @@ class TxRunner:
     # -- internal peeks used only for the interesting-state statistics ------------------------------
     def _txb(self):
         try:
-            return self.txs[0]._backends.get(self.backend._id)
+            tx = next(t for t in self.txs if t is not None)
+            return tx._backends.get(self.backend._id)
         except Exception:
             return None
+
+    def _classify_enter(self, kind: str):
+        fr = self.frames
+        if len(fr) == 1:
+            self.bump("nested_once")
+        if len(fr) == 2:
+            self.bump("nested_twice")
+        if len(fr) == 3:
+            self.bump("nested_three_times")
+        if kind.startswith("dec"):
+            self.bump("decorator_form_block")
+            if shared_name(kind) and shared_name(kind) in fr:
+                self.bump("decorator_object_is_an_open_block_object")
+        if not kind.startswith("@"):
+            return
+        self.bump("shared_object_block")
+        if kind in fr:
+            self.bump("reentered_same_object")
+            if fr[0] == kind:
+                self.bump("reentered_owner_object")
+                if kind in fr[1:]:
+                    self.bump("owner_object_active_three_times")
+            else:
+                self.bump("reentered_non_owner_object")
+        elif fr and fr[0].startswith("@"):
+            self.bump("other_shared_object_inside_shared_block")
+        if any(f.startswith("dec") for f in fr):
+            self.bump("decorator_body_opens_shared_object")
+        if not fr:
+            if kind in self.used_outer:
+                self.bump("shared_object_reused_sequentially")
+            self.used_outer.add(kind)
 
     def _classify(self, w: list[str]):
         txb = self._txb()
@@ -178,8 +238,10 @@ class TxRunner:
             CLOCK.advance(int(w[1]))
             a = b = "U"
         else:
-            if not init and self.txs:
+            if not init and self.frames:
                 self._classify(w)
+                if self.after_reentry and w[0] in ("set", "setmany", "incr", "delete", "delmany", "expire"):
+                    self.bump("write_after_reentered_block_ended")
             try:
                 a = await self.r_tx._exec(w)
             except Exception as exc:
@@ -195,39 +257,79 @@ class TxRunner:
         else:
             self.trace.append((line, f"tx={a} direct={b} " + await self.views()))
 
-    async def _block(self, it) -> str:
-        """run events until the exit of the current block (or the end); returns how it ends"""
+    def _context_object(self, kind: str, mode):
+        name = shared_name(kind)
+        if name:
+            if name not in self.objs:
+                self.objs[name] = self.cache.transaction(mode)
+            return self.objs[name]
+        return self.cache.transaction(mode)
+
+    async def _enter(self, line: str, w: list[str], it):
+        """one whole block: `enter` line, its events up to the matching exit, the exit"""
         from cashews import TransactionMode
 
+        mode = TransactionMode(w[1])
+        kind = block_kind(w)
+        outer = not self.frames
+        state = {"how": "ok", "started": False}
+
+        async def body(tx):
+            state["started"] = True
+            self._classify_enter(kind)
+            self.frames.append(kind)
+            self.txs.append(tx)
+            try:
+                self.trace.append((line, "tx=U " + await self.views()))
+                how = state["how"] = await self._block(it)
+                if outer:
+                    self._classify_end("commit" if how == "ok" else "exception")
+                    if how == "exc" and self.after_reentry:
+                        self.bump("exception_leaves_outer_block_after_reentered_block_ended")
+                if how == "exc":
+                    raise Boom()
+            finally:
+                self.txs.pop()
+                self.frames.pop()
+                if self.frames and kind.startswith("@") and self.frames[0] == kind:
+                    self.after_reentry = True
+                if not self.frames:
+                    self.after_reentry = False
+
+        res = "U"
+        try:
+            if kind.startswith("dec"):
+                @self._context_object(kind, mode)
+                async def decorated():
+                    await body(None)
+
+                await decorated()
+            else:
+                async with self._context_object(kind, mode) as tx:
+                    await body(tx)
+        except Boom:
+            pass
+        except Exception as exc:  # an enter / commit / rollback that raises is itself a disagreement with the model
+            res = f"X:{type(exc).__name__}"
+        if not state["started"]:     # `__aenter__` raised: run the block's events without a block, keep the trace aligned
+            self.trace.append((line, f"tx={res} " + await self.views()))
+            self.frames.append(kind)
+            self.txs.append(None)
+            try:
+                state["how"] = await self._block(it)
+            finally:
+                self.txs.pop()
+                self.frames.pop()
+        self.trace.append((f"exit {state['how']}", f"tx={res} " + await self.views()))
+        if outer:
+            self.resync()
+
+    async def _block(self, it) -> str:
+        """run events until the exit of the current block (or the end); returns how it ends"""
         for line in it:
             w = line.split()
             if w[0] == "enter":
-                outer = not self.txs
-                how = "ok"
-                res = "U"
-                try:
-                    async with self.cache.transaction(TransactionMode(w[1])) as tx:
-                        self.txs.append(tx)
-                        if len(self.txs) == 2:
-                            self.bump("nested_once")
-                        if len(self.txs) == 3:
-                            self.bump("nested_twice")
-                        self.trace.append((line, "tx=U " + await self.views()))
-                        how = await self._block(it)
-                        if outer:
-                            self._classify_end("commit" if how == "ok" else "exception")
-                        if how == "exc":
-                            raise Boom()
-                except Boom:
-                    pass
-                except Exception as exc:  # a commit/rollback that raises is itself a disagreement with the model
-                    res = f"X:{type(exc).__name__}"
-                finally:
-                    self.txs.pop()
-                v = await self.views()
-                self.trace.append((f"exit {how}", f"tx={res} " + v))
-                if outer:
-                    self.resync()
+                await self._enter(line, w, it)
                 continue
             if w[0] == "exit":
                 return w[1]
@@ -235,10 +337,13 @@ class TxRunner:
                 self._classify_end("explicit_rollback" if w[0] == "rollback" else "commitnow")
                 res = "U"
                 try:
-                    if w[0] == "rollback":
-                        await self.txs[-1].rollback()
+                    tx = next((t for t in reversed(self.txs) if t is not None), None)
+                    if tx is None:
+                        res = "X:NoHandle"
+                    elif w[0] == "rollback":
+                        await tx.rollback()
                     else:
-                        await self.txs[-1].commit()
+                        await tx.commit()
                 except Exception as exc:
                     res = f"X:{type(exc).__name__}"
                 self.trace.append((line, f"tx={res} " + await self.views()))
@@ -419,32 +524,61 @@ def gen_command(rng, ttls) -> str:
     return f"getexpire {k()}"
 
 
+POOL = ["@0", "@1", "@2"]
+
+
+def pick_kind(rng, stack: list[str]) -> str:
+    """kind of the next block: an object of its own, the decorator form, or a shared object — preferring, inside a
+    block of a shared object, to enter that very object again (to any depth)."""
+    r = rng.random()
+    if r < 0.45:
+        return ""
+    if r < 0.55:
+        return "dec" if rng.random() < 0.6 else "dec" + rng.choice(POOL)
+    if stack and stack[0].startswith("@") and rng.random() < 0.55:
+        return stack[0]
+    return rng.choice(POOL)
+
+
 def gen_events(rng, maxlen: int, crossing: bool) -> list[str]:
-    """one task's program: 1-2 outermost blocks (nested once/twice now and then), commands, small time
-    advances; ended by commit, exception or explicit rollback.  Without `crossing` the TTLs (>= 1 s) and the
-    total advance per case (< 1 s) keep the proviso true, leaving 1..7 ticks at commit for 1 s TTLs."""
+    """one task's program: 1-3 outermost blocks (nested up to three times now and then), each block on a context
+    object of its own, in decorator form, or on one of three shared context objects (re-entered nested in
+    themselves / in each other and re-used sequentially); commands, small time advances; ended by commit,
+    exception or explicit rollback.  Without `crossing` the TTLs (>= 1 s) and the total advance per case (< 1 s)
+    keep the proviso true, leaving 1..7 ticks at commit for 1 s TTLs."""
     ttls = ["-", "-", "0", "8", "8", "16", "80"] if not crossing else ["-", "0", "1", "2", "4", "8", "16"]
     advs = [1, 1, 2, 3] if not crossing else [1, 2, 4, 8, 16]
     budget = 7 if not crossing else 10 ** 6
+    modes = {k: rng.choice(MODES) for k in POOL}
+
+    def enter(stack):
+        kind = pick_kind(rng, stack)
+        stack.append(kind)
+        return f"enter {modes.get(shared_name(kind)) or rng.choice(MODES)} {kind}".strip()
+
     ev = []
     used = 0
-    for _ in range(rng.choice([1, 1, 1, 2])):
+    for _ in range(rng.choice([1, 1, 1, 2, 2, 3])):
         if rng.random() < 0.2:
             ev.append(gen_command(rng, ttls))          # a command outside any block
-        depth = rng.choice([1, 1, 1, 2, 2, 3])
-        mode = rng.choice(MODES)
-        ev.append(f"enter {mode}")
+        depth = rng.choice([1, 1, 1, 2, 2, 2, 3, 3, 4])
+        stack: list[str] = []
+        ev.append(enter(stack))
         n = rng.randint(1, maxlen)
         opened = 1
         for i in range(n):
             r = rng.random()
             if opened < depth and r < 0.25:
-                ev.append(f"enter {rng.choice(MODES)}")
+                ev.append(enter(stack))
                 opened += 1
             elif opened > 1 and r < 0.35:
                 ev.append(f"exit {rng.choice(['ok', 'ok', 'exc'])}")
+                stack.pop()
                 opened -= 1
-                depth -= 1
+                if rng.random() < 0.5:
+                    depth -= 1
+                if rng.random() < 0.5:
+                    ev.append(gen_command(rng, ttls))  # a command right after an inner block has ended
             elif r < 0.42 and used < budget:
                 dt = min(rng.choice(advs), budget - used)
                 used += dt
@@ -476,3 +610,44 @@ def gen_case(rng, i: int) -> dict:
         "init": gen_init(rng),
         "events": gen_events(rng, 14 if i % 3 else 6, crossing),
     }
+
+
+def nesting_cases(rng=None):
+    """Every nesting shape up to depth 3 over {object of its own, decorator form, shared object @0, shared object @1,
+    decorator form with @0 as the decorator}
+    x every way of leaving each block {normally, by an exception caught right outside it}, with a write after every
+    block boundary and a read from inside; followed by a second outermost block that re-uses the first block's kind
+    (for a shared object: sequential re-use of the same object, entered twice nested).  With `rng`: one mode per shape
+    drawn from it (quick tier); without: all three modes."""
+    kinds = ["", "dec", "@0", "@1", "dec@0"]
+    ends = ["ok", "exc"]
+    shapes = []
+    for k1 in kinds:
+        shapes.append((k1,))
+        for k2 in kinds:
+            shapes.append((k1, k2))
+            for k3 in kinds:
+                shapes.append((k1, k2, k3))
+    for shape in shapes:
+        for mode in ([rng.choice(MODES)] if rng is not None else MODES):
+            for xs in _products(ends, len(shape)):
+                def en(k):
+                    return f"enter {mode} {k}".strip()
+                ev = [en(shape[0]), "set 0 i:1 - a"]
+                if len(shape) > 1:
+                    ev += [en(shape[1]), "set 2 t:2 8 a", "delete 4"]
+                    if len(shape) > 2:
+                        ev += [en(shape[2]), "incr 0 1 -", "set 4 t:3 - nx", f"exit {xs[2]}", "get 4"]
+                    ev += [f"exit {xs[1]}", "get 2"]
+                ev += ["set 4 t:5 16 a", "adv 1", "get 0", f"exit {xs[0]}", "getexpire 4"]
+                ev += [en(shape[0]), en(shape[0]), "delete 0", "exit ok", "incr 2 1 -", "exit ok"]
+                yield {"config": "facade", "init": ["set 4 i:1 - a", "adv 3"], "events": ev}
+
+
+def _products(alphabet, n):
+    if n == 0:
+        yield ()
+        return
+    for rest in _products(alphabet, n - 1):
+        for a in alphabet:
+            yield rest + (a,)
